@@ -631,7 +631,11 @@ func (p *printer) stmt(s *S) {
 		p.hdr--
 		if p.goMode && k != "_" && s.X.Ty.K != "map" {
 			// Go's range index is int: convert to int32 at the top of the body
-			p.w("for " + k + "_, " + v + " := range " + xs + " {")
+			if v == "" {
+				p.w("for " + k + "_ := range " + xs + " {")
+			} else {
+				p.w("for " + k + "_, " + v + " := range " + xs + " {")
+			}
 			p.nl()
 			p.ind++
 			p.indent()
@@ -640,7 +644,7 @@ func (p *printer) stmt(s *S) {
 			p.indent()
 			p.w("_ = " + k)
 			p.nl()
-			if v != "_" {
+			if v != "_" && v != "" {
 				p.indent()
 				p.w("_ = " + v)
 				p.nl()
